@@ -193,6 +193,11 @@ class TemplateData(object):
             self.next_index = functools.partial(next, itertools.count())
             self.nbits_associated_list = []  # 204 YYY
             self.defining_new_refvals = False  # 203 YYY
+            # The elements that give attributes their meaning (031021, 008023, 008024)
+            # belong to the subset they are found in
+            self.associated_field_meaning = None
+            self.first_order_stats_meaning = None
+            self.difference_stats_meaning = None
             self.data_not_present_count = 0  # 221
             self.waiting_for_qa_info_meaning = False
             self.qa_info_values_started = False
@@ -241,7 +246,8 @@ class TemplateData(object):
         # Read associated field if exists
         if self.nbits_associated_list and descriptor.X != 31:
             assoc_node = AssociatedFieldNode(*self.get_next_descriptor_and_index())
-            assoc_node.add_attribute(self.associated_field_meaning)
+            if self.associated_field_meaning is not None:
+                assoc_node.add_attribute(self.associated_field_meaning)
             node = ValueDataNode(*self.get_next_descriptor_and_index())
             node.add_attribute(assoc_node)
             self.add_node(node)
@@ -358,7 +364,8 @@ class TemplateData(object):
                 self.add_value_node()
             else:
                 node = self.add_node(FirstOrderStatsNode(*self.get_next_descriptor_and_index()))
-                node.add_attribute(self.first_order_stats_meaning)
+                if self.first_order_stats_meaning is not None:
+                    node.add_attribute(self.first_order_stats_meaning)
                 self.wire_bitmap_attribute(node)
 
         elif operator_code == 225:  # difference stats
@@ -368,7 +375,8 @@ class TemplateData(object):
                 self.add_value_node()
             else:
                 node = self.add_node(DifferenceStatsNode(*self.get_next_descriptor_and_index()))
-                node.add_attribute(self.difference_stats_meaning)
+                if self.difference_stats_meaning is not None:
+                    node.add_attribute(self.difference_stats_meaning)
                 self.wire_bitmap_attribute(node)
 
         elif operator_code == 232:  # replaced/retained value
